@@ -2518,6 +2518,7 @@ def r_mimetypes(d):
         for enc_opt, extra_files in ((None, []), ("[('.gz', 'gzip')]", []), ("[('.gz', 'gzip'), ('.Z', 'compress')]", [table])):
             cfg = _config({})
             cfg.set("pygopherd", "root", top)
+            cfg.set("handlers.dir.DirHandler", "cachetime", "0")
             if enc_opt is not None:
                 cfg.set("pygopherd", "encoding", enc_opt)
             if extra_files:
@@ -2543,6 +2544,18 @@ def r_mimetypes(d):
                         got = h_.split(b":", 1)[1].strip().decode()
                 if got != expect:
                     return {"confirmed": True, "scenario": "encoding = %s, mimetypes += %s: %s is advertised (HTTP) as %r, the configured tables say %r" % (enc_opt or "(shipped)", [os.path.basename(x) for x in extra_files], n_, got, expect)}
+                # the item type shown in menus is the first rule of the configured [GopherEntry] mapping whose pattern matches the MIME type
+                import re as _re_m
+                rules = eval(cfg.get("GopherEntry", "mapping"))
+                want_type = next((t_ for p_, t_ in rules if _re_m.match(p_, expect)), "0")
+                menu, _l = _serve(b"/\r\n", cfg)
+                got_type = None
+                for l_ in menu.split(b"\r\n"):
+                    f_ = l_.split(b"\t")
+                    if len(f_) >= 2 and f_[1] == b"/" + n_.encode():
+                        got_type = l_[:1].decode()
+                if got_type != want_type:
+                    return {"confirmed": True, "scenario": "encoding = %s: %s (%s) is shown with item type %r in the menu, the configured mapping says %r" % (enc_opt or "(shipped)", n_, expect, got_type, want_type)}
                 info, _l = _serve(b"/" + n_.encode() + b"\t!\r\n", cfg)
                 views = [l for l in info.decode("latin-1").split("\r\n") if l.startswith(" ") and "/" in l and ":" in l]
                 if not any(l.strip().startswith(expect + ":") or l.strip().startswith(expect + " ") for l in views):
@@ -2554,6 +2567,7 @@ def r_mimetypes(d):
 
 
 REALISERS.append(("pygopherd/initialization.py::init_mimetypes", r_mimetypes))
+REALISERS.append(("pygopherd/gopherentry.py::GopherEntry.guesstype", lambda d: (r_mimetypes(d) if d.get("kind") == "standin" else {"confirmed": None, "note": "no counter-model replay"})))
 REALISERS.append(("pygopherd/gopherentry.py::GopherEntry.populatefromfs", lambda d: (r_mimetypes(d) if d.get("kind") == "standin" else {"confirmed": None, "note": "no counter-model replay"})))
 
 
